@@ -245,6 +245,8 @@ class SymEx:
     def run(self, func, args=None, state=None, with_self=False, kwargs=None):
         """-> list of (PathState, value); value None for an implicit ``return None``"""
         st = state or PathState()
+        if self.depth == 0:
+            self.steps = 0
         params = func.params
         env = {}
         a = list(args or [])
